@@ -431,7 +431,7 @@ def analyse_class(rep, C, slots, before, printed, aliased, all_fields, finder, o
                 if ev.is_target != want_target:
                     fail(f'C13.flags.{cname}.{slot}', f'is_target={ev.is_target!r}, expected {want_target}', '')
                 if ev.parent_query is not want_pq:
-                    fail(f'C13.flags.{cname}.{slot}', f'parent_query={ev.parent_query!r}, expected {"the node" if pself else "the caller\'s parent_query"}', '')
+                    fail(f'C13.flags.{cname}.{slot}', f'parent_query={ev.parent_query!r}, expected {"the node" if pself else "the parent_query of the caller"}', '')
                 if ev.callback is not st['callback']:
                     fail(f'C13.flags.{cname}.{slot}', 'a different visitor is passed down', '')
         for (slot_, tag_, sub_), n_ in per_iter.items():
